@@ -7,7 +7,7 @@ from harness.core import MachineryError
 META = {
     "id": "C18",
     "level": "model_checking",
-    "technique": "TLA+ spec Msbar: every sign pattern (quark x reference scale vs mass x reference scale vs coupling reference x nfref, 72 patterns) with the transcribed acceptance table checked by TLC against an independent statement of consistency and of the target patch; numeric instances of every pattern run through the real msbar_masses.compute (orders 1-4, exact/expanded); outcome class, sortedness and the fixed-point residual class (m(m)=m re-evaluated with the repository's evolve in the adjoining patch) judged by TLC (MsbarTrace)",
+    "technique": "TLA+ spec Msbar: every sign pattern (quark x reference scale vs mass x reference scale vs coupling reference x nfref, 72 patterns) with the transcribed acceptance table checked by TLC against an independent statement of consistency and of the target patch; numeric instances of every pattern run through the real msbar_masses.compute (orders 1-4, exact/expanded); outcome class, sortedness and the fixed-point residual class (m(m)=m re-evaluated with the repository's evolve in the adjoining patch) and, where the path from the reference to the fixed point crosses two or more matching scales, the class of 'direct evolution = evolution in two legs' judged by TLC (MsbarTrace)",
     "text": "B1 exhaustive over the 72 patterns. B2/B3: random numeric inputs covering consistent and inconsistent patterns for all three quarks and nfref 3-6; consistent inputs must return without error (any exception other than ValueError is a crash violation), sorted, with |m(m)-m|/m <= 1e-6 (clean tree: <= 1e-13); inconsistent ones must raise ValueError.",
     "note": "Half of the numeric instances use matching ratios in [0.8,1.3] and xif^2 in [0.5,2]; the fixed point is re-evaluated with the documented coupling (thresholds at m^2 k^2 xif^2); the decoupling relations' logarithms are covered by C16/C22. Level model_checking for the bookkeeping table, exploration for the numeric fixed point.",
     "design_ref": "5 C18",
@@ -26,7 +26,7 @@ def run(chk):
     r = chk.tlc("MsbarMC", "MsbarMC.cfg", workers=4, label="acceptance table vs consistency statement (72 patterns)")
     if r.violated:
         raise MachineryError(f"Msbar table violated: {r.counterexample()[:1500]}")
-    n = 4000 if chk.thorough() else 500
+    n = 6000 if chk.thorough() else 1500
     seeds = [chk.rng.randrange(2**31) for _ in range(n)]
     with mp.get_context("fork").Pool(16) as pool:
         recs = pool.map(_inst, seeds, chunksize=8)
@@ -36,6 +36,7 @@ def run(chk):
             pats.add((q["q"], q["rm"], q["rq"], rec["nfref"]))
         chk.count(1, rec["seed"], nontrivial=rec["outcome"] == "ok" and any(q["rm"] != "eq" for q in rec["quarks"]))
     chk.note("patterns_exercised", len(pats))
+    chk.note("paths_with_two_or_more_matchings_composed", sum(1 for rec in recs for c in rec.get("comp", []) if c != 99))
     chk.sample(recs[0])
     chk.sample(next(x for x in recs if x["outcome"] == "ok"))
     res = chk.tlc("MsbarTrace", "MsbarTrace.cfg", trace=recs, workers=1, label="real outcomes judged")
